@@ -742,8 +742,9 @@ R_<TG_, TA_>::applyRequests(Control& control,
 		RegistryBackUp backup;
 		_core.registry.backup(backup);
 
+		// only the first TransitionSets::CAPACITY entries are recorded, the rest cannot be pinned
 		for (Short i = 0; i < count; ++i)
-			applyRequest(control, transitions[i], i);
+			applyRequest(control, transitions[i], i < TransitionSets::CAPACITY ? i : INVALID_SHORT);
 
 		return _core.registry != backup;
 	}
